@@ -458,10 +458,23 @@ func checkLocationParser(c *Ctx, pl *ssa.Function) {
 			c.judge(stt, "ARITY", fmt.Sprintf("join operands appended in a loop (%s)", c.W.pos(st.Pos())[strings.LastIndex(c.W.pos(st.Pos()), "/")+1:]), st.Pos(), "operands are appended in a loop over the operand list", fmt.Sprintf("this branch appends a fixed number of operands (%d) outside any loop: joins with more operands, or with a parenthesised operand that is not first, are mis-parsed or panic", n))
 		})
 	}
+	// operands may also be placed by index into a list made for them (SubLocations[k] = parseLocation(...) in a loop)
+	placedInLoop := false
+	for _, f := range family(pl) {
+		eachInstr(f, func(i ssa.Instruction) {
+			if stx, ok := i.(*ssa.Store); ok && inLoop(stx.Block()) {
+				if ia, ok := stx.Addr.(*ssa.IndexAddr); ok && strings.HasSuffix(tname(deref(ia.Type())), "poly.Location") {
+					placedInLoop = true
+				}
+			}
+		})
+	}
 	for _, st := range joinOutside {
 		stt := broken
 		if joinInLoop > 0 {
 			stt = holds // operands are appended in a loop; this site flushes the last one after it
+		} else if placedInLoop {
+			stt = unknown // operands are stored by index in a loop somewhere in the parser; which list that is, is not followed
 		}
 		c.judge(stt, "ARITY", fmt.Sprintf("join operands appended in a loop (%s)", c.W.pos(st.Pos())[strings.LastIndex(c.W.pos(st.Pos()), "/")+1:]), st.Pos(), "operands are appended in a loop over the operand list (a final flush after the loop included)", "this branch appends a fixed number of operands outside any loop and no other site appends them in a loop: joins with more operands, or with a parenthesised operand that is not first, are mis-parsed or panic")
 	}
